@@ -2,6 +2,7 @@ import Ds.Add
 import Mathlib.Algebra.Group.Defs
 import Mathlib.Algebra.BigOperators.Group.List.Basic
 import Mathlib.Data.List.Basic
+import Mathlib.Data.List.Nodup
 import Mathlib.Tactic.Ring
 import Mathlib.Tactic.Abel
 import Mathlib.Tactic.Linarith
@@ -457,5 +458,266 @@ theorem call_eq (d : Diagram V) (args : List ℕ) :
       simp only [h1, bne_self_eq_false, this, ne_eq, not_true_eq_false, if_false, h2]
       rw [evalAcc_eq, zero_add]; rfl
   · simp [h1]; rfl
+
+/-! ### restrict, diagram level -/
+
+theorem restrict_notMem (d : Diagram V) (u c : ℕ) (hu : u ∉ d.units) :
+    d.restrict u c = .error Err.keyError := by
+  have hu' : d.units.contains u = false := by simpa using hu
+  unfold Diagram.restrict; rw [hu']; rfl
+
+theorem restrict_ge (d : Diagram V) (u c : ℕ) (hu : u ∈ d.units) (hc : d.C ≤ c) :
+    d.restrict u c = .error Err.indexError := by
+  have hu' : d.units.contains u = true := by simpa using hu
+  unfold Diagram.restrict; rw [hu']
+  simp only [Bool.not_true, Bool.false_eq_true, if_false, ge_iff_le, hc, if_true]; rfl
+
+theorem restrict_first (d : Diagram V) (u c : ℕ) (hu : u ∈ d.units) (hc : c < d.C) (h0 : d.units.idxOf u = 0) :
+    d.restrict u c =
+      match restrictRoot d.C d.root c d.levels with
+      | .ok (r, L) => .ok { d with units := d.units.eraseIdx 0, root := r, levels := L }
+      | .error e => .error e := by
+  have hu' : d.units.contains u = true := by simpa using hu
+  unfold Diagram.restrict; rw [hu']
+  simp only [Bool.not_true, Bool.false_eq_true, if_false, ge_iff_le, Nat.not_le.mpr hc, h0, beq_self_eq_true, if_true]
+  cases restrictRoot d.C d.root c d.levels with
+  | error e => rfl
+  | ok p => rfl
+
+theorem restrict_later (d : Diagram V) (u c : ℕ) (hu : u ∈ d.units) (hc : c < d.C) (h0 : d.units.idxOf u ≠ 0) :
+    d.restrict u c =
+      .ok { d with units := d.units.eraseIdx (d.units.idxOf u),
+                   levels := restrictPos d.C (d.units.idxOf u - 1) c d.levels } := by
+  have hu' : d.units.contains u = true := by simpa using hu
+  unfold Diagram.restrict; rw [hu']
+  simp only [Bool.not_true, Bool.false_eq_true, if_false, ge_iff_le, Nat.not_le.mpr hc, beq_iff_eq, h0]; rfl
+
+theorem restrict_spec (d d' : Diagram V) (u c : ℕ) (hwf : d.WF) (h2 : 2 ≤ d.units.length)
+    (h : d.restrict u c = .ok d') :
+    u ∈ d.units ∧ c < d.C ∧ d'.WF ∧ d'.units = d.units.eraseIdx (d.units.idxOf u) ∧ d'.C = d.C ∧
+    ∀ as, as.length + 1 = d.units.length → (∀ a ∈ as, a < d.C) →
+      d'.eval as = d.eval (as.insertIdx (d.units.idxOf u) c) := by
+  by_cases hu : u ∈ d.units
+  swap
+  · rw [restrict_notMem d u c hu] at h; cases h
+  by_cases hc : c < d.C
+  swap
+  · rw [restrict_ge d u c hu (Nat.le_of_not_lt hc)] at h; cases h
+  have hidx : d.units.idxOf u < d.units.length := List.idxOf_lt_length_iff.mpr hu
+  obtain ⟨hlen, hreach⟩ := hwf
+  refine ⟨hu, hc, ?_⟩
+  by_cases h0 : d.units.idxOf u = 0
+  · rw [restrict_first d u c hu hc h0] at h
+    obtain ⟨units, C, diam, root, levels⟩ := d
+    simp only at hlen hreach h2 hidx h0 hc h ⊢
+    match levels, hlen, hreach, h with
+    | lv :: next :: rest, hlen, hreach, h =>
+      rw [restrictRoot_ok C root c lv next rest hc hreach] at h
+      simp only [Except.ok.injEq] at h
+      subst h
+      rw [h0]
+      refine ⟨⟨?_, ?_⟩, rfl, rfl, ?_⟩
+      · simp only [List.length_cons, List.length_eraseIdx] at hlen ⊢; rw [if_pos (by omega)]; omega
+      · exact wf_restrictRoot C root c lv next rest hc hreach _
+      · intro as hl hC
+        match as, hl, hC with
+        | b :: as, _, hC =>
+          simp only [Diagram.eval, List.insertIdx_zero]
+          exact eval_restrictRoot C root c lv next rest hc hreach b as (hC b (by simp))
+        | [], hl, _ => simp at hl; omega
+    | [_], hlen, _, _ => simp at hlen; omega
+    | [], hlen, _, _ => simp at hlen; omega
+  · rw [restrict_later d u c hu hc h0] at h
+    simp only [Except.ok.injEq] at h
+    subst h
+    have hk : d.units.idxOf u - 1 + 1 = d.units.idxOf u := by omega
+    have hk' : d.units.idxOf u - 1 + 1 < d.levels.length := by omega
+    refine ⟨⟨?_, ?_⟩, rfl, rfl, ?_⟩
+    · have := length_restrictPos d.C (d.units.idxOf u - 1) c d.levels hk'
+      simp only [List.length_eraseIdx, if_pos hidx]; omega
+    · exact wf_restrictPos d.C _ c d.levels d.root hc hreach
+    · intro as hl hC
+      simp only [Diagram.eval]
+      rw [eval_restrictPos d.C _ c d.levels d.root as hk' (by omega) hC hreach, hk]
+
+theorem restrict_ok (d : Diagram V) (u c : ℕ) (hwf : d.WF) (h2 : 2 ≤ d.units.length)
+    (hu : u ∈ d.units) (hc : c < d.C) : ∃ d', d.restrict u c = .ok d' := by
+  by_cases h0 : d.units.idxOf u = 0
+  · rw [restrict_first d u c hu hc h0]
+    obtain ⟨hlen, hreach⟩ := hwf
+    match hL : d.levels, hlen, hreach with
+    | lv :: next :: rest, hlen, hreach =>
+      rw [restrictRoot_ok d.C d.root c lv next rest hc hreach]
+      exact ⟨_, rfl⟩
+    | [_], hlen, _ => simp at hlen; omega
+    | [], hlen, _ => simp at hlen; omega
+  · rw [restrict_later d u c hu hc h0]; exact ⟨_, rfl⟩
+
+/-- F3b: restricting the only variable of a one-variable diagram raises `IndexError` -/
+theorem restrict_single (d : Diagram V) (u c : ℕ) (hlen : d.levels.length ≤ 1) (h1 : d.units.length = 1)
+    (hu : u ∈ d.units) (hc : c < d.C) : d.restrict u c = .error Err.indexError := by
+  have hidx : d.units.idxOf u < d.units.length := List.idxOf_lt_length_iff.mpr hu
+  rw [restrict_first d u c hu hc (by omega), restrictRoot_single _ _ _ _ hlen]
+
+/-- call-level form: both sides raise the same errors -/
+theorem restrict_call (d d' : Diagram V) (u c : ℕ) (hwf : d.WF) (h2 : 2 ≤ d.units.length)
+    (h : d.restrict u c = .ok d') (as : List ℕ) :
+    d'.call as = d.call (as.insertIdx (d.units.idxOf u) c) := by
+  obtain ⟨hu, hc, _, hunits, hC, hev⟩ := restrict_spec d d' u c hwf h2 h
+  have hidx : d.units.idxOf u < d.units.length := List.idxOf_lt_length_iff.mpr hu
+  rw [call_eq, call_eq, hunits, hC, List.length_eraseIdx, if_pos hidx]
+  by_cases hl : as.length + 1 = d.units.length
+  · have hl' : (as.insertIdx (d.units.idxOf u) c).length = d.units.length := by
+      rw [List.length_insertIdx, if_pos (by omega)]; exact hl
+    rw [if_neg (show ¬ as.length ≠ d.units.length - 1 by omega),
+      if_neg (show ¬ (as.insertIdx (d.units.idxOf u) c).length ≠ d.units.length by omega)]
+    have hex : (∃ a ∈ as.insertIdx (d.units.idxOf u) c, d.C ≤ a) ↔ ∃ a ∈ as, d.C ≤ a := by
+      have hi : d.units.idxOf u ≤ as.length := by omega
+      simp only [List.mem_insertIdx hi]
+      constructor
+      · rintro ⟨a, (rfl | ha), h⟩
+        · omega
+        · exact ⟨a, ha, h⟩
+      · rintro ⟨a, ha, h⟩; exact ⟨a, Or.inr ha, h⟩
+    by_cases hx : ∃ a ∈ as, d.C ≤ a
+    · rw [if_pos hx, if_pos (hex.mpr hx)]
+    · rw [if_neg hx, if_neg (mt hex.mp hx)]
+      rw [hev as hl (fun a ha => Nat.lt_of_not_le (fun h => hx ⟨a, ha, h⟩))]
+  · rw [if_pos (show as.length ≠ d.units.length - 1 by omega), if_pos]
+    rw [List.length_insertIdx]; split <;> omega
+
+
+/-! ### sum, diagram level -/
+
+theorem sum_eq (a b : Diagram V) :
+    a.sum b =
+      if a.units ≠ b.units ∨ a.C ≠ b.C then .error Err.assertionError
+      else .ok { units := a.units, C := a.C, diameter := a.diameter * b.diameter, root := 0,
+                 levels := (sumLevels a.C a.levels b.levels [(a.root, b.root)]).map
+                   (padLevel a.C · (a.diameter * b.diameter)) } := by
+  unfold Diagram.sum
+  by_cases h : a.units ≠ b.units ∨ a.C ≠ b.C
+  · rw [if_pos h, if_pos (by simpa using h)]; rfl
+  · rw [if_neg h, if_neg (by simpa using h)]; rfl
+
+theorem sum_spec (a b s : Diagram V) (ha : a.WF) (hb : b.WF) (h : a.sum b = .ok s) :
+    a.units = b.units ∧ a.C = b.C ∧ s.WF ∧ s.units = a.units ∧ s.C = a.C ∧
+    ∀ as, (∀ x ∈ as, x < a.C) → s.eval as = a.eval as + b.eval as := by
+  rw [sum_eq] at h
+  by_cases hne : a.units ≠ b.units ∨ a.C ≠ b.C
+  · rw [if_pos hne] at h; cases h
+  rw [if_neg hne] at h
+  simp only [Except.ok.injEq] at h
+  subst h
+  have hu : a.units = b.units := by by_contra hh; exact hne (Or.inl hh)
+  have hC : a.C = b.C := by by_contra hh; exact hne (Or.inr hh)
+  have hl : a.levels.length = b.levels.length := by rw [ha.len, hb.len, hu]
+  refine ⟨hu, hC, ⟨?_, ?_⟩, rfl, rfl, ?_⟩
+  · simp only [List.length_map]; rw [length_sumLevels _ _ _ _ hl, ha.len]
+  · exact wf_padLevels _ _ _ _ (wf_sumLevels _ _ _ _ 0 (by simp))
+  · intro as hC
+    simp only [Diagram.eval]
+    rw [eval_padLevels, eval_sumLevels a.C a.levels b.levels [(a.root, b.root)] 0 (a.root, b.root) as hl (by simp) hC]
+
+theorem sum_call (a b s : Diagram V) (ha : a.WF) (hb : b.WF) (h : a.sum b = .ok s) (as : List ℕ) :
+    s.call as = (do let x ← a.call as; let y ← b.call as; pure (x + y)) := by
+  obtain ⟨hu, hC, _, hsu, hsC, hev⟩ := sum_spec a b s ha hb h
+  rw [call_eq, call_eq, call_eq, hsu, hsC, ← hu, ← hC]
+  by_cases h1 : as.length ≠ a.units.length
+  · simp only [if_pos h1]; rfl
+  · simp only [if_neg h1]
+    by_cases h2 : ∃ x ∈ as, a.C ≤ x
+    · simp only [if_pos h2]; rfl
+    · simp only [if_neg h2]
+      rw [hev as (fun x hx => Nat.lt_of_not_le (fun hh => h2 ⟨x, hx, hh⟩))]; rfl
+
+
+/-! ### modelcount, diagram level -/
+section MC2
+variable [DecidableEq V]
+
+theorem length_allArgs (C n : ℕ) : (allArgs C n).length = C ^ n := by
+  induction n with
+  | zero => simp [allArgs]
+  | succ n ih =>
+    simp only [allArgs, List.length_flatMap, List.length_map, ih, List.map_const', List.length_range,
+      List.sum_replicate_nat, pow_succ, Nat.mul_comm]
+
+theorem sum_map_indicator {α : Type} [DecidableEq α] (dom : List α) (y : α) :
+    (dom.map (fun e => if y = e then 1 else 0)).sum = dom.count y := by
+  induction dom with
+  | nil => simp
+  | cons a dom ih =>
+    simp only [List.map_cons, List.sum_cons, ih, List.count_cons, beq_iff_eq]
+    by_cases h : y = a
+    · simp [h]; omega
+    · simp [h, Ne.symm h]
+
+/-- the fibres of `f` over a duplicate-free complete list partition `l` -/
+theorem sum_countP_fibres {α β : Type} [DecidableEq α] (dom : List α) (hnd : dom.Nodup) (hall : ∀ v, v ∈ dom)
+    (f : β → α) (l : List β) : (dom.map (fun e => l.countP (fun x => f x = e))).sum = l.length := by
+  induction l with
+  | nil => simp
+  | cons x xs ih =>
+    have : (fun e => (x :: xs).countP (fun x => f x = e)) =
+        fun e => xs.countP (fun x => decide (f x = e)) + (if f x = e then 1 else 0) := by
+      funext e; rw [List.countP_cons]; simp
+    rw [this, List.sum_map_add, ih, sum_map_indicator, List.count_eq_one_of_mem hnd (hall _)]
+    simp
+
+theorem modelcount_eq (d : Diagram V) (hw : d.WF) (sub? : V → V → Option V) (valid : V → Prop)
+    (H : ∀ e a r, valid e → (sub? e a = some r ↔ a + r = e))
+    (Hv : ∀ e a r, valid e → a + r = e → valid r)
+    (vals : List V) (hvals : ∀ e ∈ vals, valid e) :
+    d.modelcount sub? vals =
+      vals.map (fun e => (countSpec d.C d.levels d.root e : Int)) ++
+        [(2 : Int) ^ d.units.length - (vals.map (fun e => (countSpec d.C d.levels d.root e : Int))).sum] := by
+  have : vals.map (fun e => (mc d.C sub? d.levels d.root e : Int)) =
+      vals.map (fun e => (countSpec d.C d.levels d.root e : Int)) := by
+    apply List.map_congr_left
+    intro e he
+    rw [mc_eq_countSpec d.C sub? valid H Hv d.levels d.root e (hvals e he) hw.reach]
+  unfold Diagram.modelcount
+  simp only [this]
+
+/-- with binary candidates and a complete duplicate-free value list `vals ++ [bad]`, the last
+entry `2^n − Σ` is the number of assignments evaluating to `bad` -/
+theorem modelcount_complete (d : Diagram V) (hw : d.WF) (sub? : V → V → Option V) (valid : V → Prop)
+    (H : ∀ e a r, valid e → (sub? e a = some r ↔ a + r = e))
+    (Hv : ∀ e a r, valid e → a + r = e → valid r)
+    (vals : List V) (hvals : ∀ e ∈ vals, valid e) (bad : V)
+    (hnd : (vals ++ [bad]).Nodup) (hall : ∀ v, v ∈ vals ++ [bad]) (hC : d.C = 2) :
+    d.modelcount sub? vals = (vals ++ [bad]).map (fun e => (countSpec 2 d.levels d.root e : Int)) := by
+  rw [modelcount_eq d hw sub? valid H Hv vals hvals, hC]
+  have hs := sum_countP_fibres (vals ++ [bad]) hnd hall (fun as => evalFrom d.levels d.root as)
+    (allArgs 2 d.levels.length)
+  rw [length_allArgs] at hs
+  simp only [List.map_append, List.map_cons, List.map_nil, List.sum_append, List.sum_cons, List.sum_nil,
+    Nat.add_zero] at hs
+  simp only [List.map_append, List.map_cons, List.map_nil, List.append_cancel_left_eq, List.cons.injEq, and_true]
+  have h1 : ((vals.map (fun e => (countSpec 2 d.levels d.root e : Int))).sum) =
+      (((vals.map (fun e => countSpec 2 d.levels d.root e)).sum : ℕ) : Int) := by
+    clear hs hvals hnd hall
+    induction vals with
+    | nil => simp
+    | cons a t ih => simp [ih]
+  rw [h1]
+  unfold countSpec
+  rw [← hw.len, show (2 : Int) ^ d.levels.length = ((2 ^ d.levels.length : ℕ) : Int) by push_cast; rfl, ← hs]
+  push_cast; ring
+end MC2
+
+
+/-! ### decidability of the invariants (so that concrete instances can be checked by `decide`) -/
+
+instance wf.dec (C : ℕ) : (L : List (Level V)) → (j : ℕ) → Decidable (wf C L j)
+  | [], _ => isTrue trivial
+  | lv :: rest, j =>
+    have : ∀ c, Decidable (wf C rest ((nodeAt lv j).ch c)) := fun _ => wf.dec C rest _
+    (inferInstance : Decidable ((nodeAt lv j).active = true ∧ ∀ c, c < C → wf C rest ((nodeAt lv j).ch c)))
+
+instance (d : Diagram V) : Decidable d.WF :=
+  decidable_of_iff (d.levels.length = d.units.length ∧ wf d.C d.levels d.root)
+    ⟨fun h => ⟨h.1, h.2⟩, fun h => ⟨h.1, h.2⟩⟩
 
 end Ds.Dd
